@@ -26,6 +26,9 @@ pub enum FrameSpec {
     /// not a frame stream: a full real conversation over TLS (NLA on/off) whose transport delivers at most
     /// `cap` bytes per read (Plan::Cap) — end-to-end fragmentation through OpenSSL, CredSSP and every layer
     Conversation(bool),
+    /// a whole conversation over TLS (NLA on/off) whose server cuts every message into TLS records of at most `plan`
+    /// plaintext bytes; the transport below TLS delivers at most .1 bytes per read (0 = everything)
+    ConversationRecords(bool, usize),
 }
 
 #[derive(Clone, Debug, Serialize)]
@@ -64,7 +67,7 @@ pub fn frame_bytes(f: &FrameSpec, salt: u8) -> Vec<u8> {
         }
         FrameSpec::TpktX224(n) => framing::tpkt(&framing::x224_dt(&coded(*n as usize, salt))),
         FrameSpec::Raw(b) => b.clone(),
-        FrameSpec::Conversation(_) => vec![0],
+        FrameSpec::Conversation(_) | FrameSpec::ConversationRecords(..) => vec![0],
     }
 }
 
@@ -113,7 +116,7 @@ fn header_len(f: &FrameSpec) -> usize {
         FrameSpec::Tpkt(_) | FrameSpec::TpktX224(_) => 4,
         FrameSpec::FpShort(..) => 2,
         FrameSpec::FpLong(..) => 3,
-        FrameSpec::Raw(_) | FrameSpec::Conversation(_) => 0,
+        FrameSpec::Raw(_) | FrameSpec::Conversation(_) | FrameSpec::ConversationRecords(..) => 0,
     }
 }
 
@@ -230,6 +233,15 @@ impl Prop for C13 {
                 cs.push(Case { frames: vec![FrameSpec::Conversation(nla)], plan: Plan::Cap(k), via_x224: false });
             }
         }
+        // F2: whole conversations whose TLS records end inside frame headers and bodies (a read of the decrypted
+        // stream returns at most the rest of one record)
+        for nla in [true, false] {
+            for k in [1usize, 2, 3, 4, 5, 7, 11, 16, 100] {
+                for tcap in [0usize, 1, 7] {
+                    cs.push(Case { frames: vec![FrameSpec::ConversationRecords(nla, tcap)], plan: Plan::Cap(k), via_x224: false });
+                }
+            }
+        }
         self.cases = cs;
         Ok(())
     }
@@ -241,7 +253,7 @@ impl Prop for C13 {
         json!({"idx": idx, "case": c, "stream_len": stream_of(c).len()})
     }
     fn rule(&self) -> String {
-        "cases = (three-frame stream, read schedule); streams enumerate every TPKT length field 0..65535, every short fast-path length x every first byte, every 15-bit long-form length; schedules enumerate caps {1,2,3,4,5,7,1500}, every single split offset, all pairs of splits inside the first two headers, and all 2^(n-1) compositions of short streams; frames of 4100..65535 bytes delivered 1, 2, 3 or 7 bytes at a time; streams read through x224::Client::read with fast-path frames with and without payload before, between and after slow-path frames. Additionally 14 full real conversations over TLS (NLA on/off, with a reactivation, inputs and shutdown) are run with the transport delivering at most k bytes per read for k in {1,2,3,5,7,16,1000}. Non-trivial: first frame has an empty payload, or declares a length below its own header, or at least one split point falls inside a frame header.".into()
+        "cases = (three-frame stream, read schedule); streams enumerate every TPKT length field 0..65535, every short fast-path length x every first byte, every 15-bit long-form length; schedules enumerate caps {1,2,3,4,5,7,1500}, every single split offset, all pairs of splits inside the first two headers, and all 2^(n-1) compositions of short streams; frames of 4100..65535 bytes delivered 1, 2, 3 or 7 bytes at a time; streams read through x224::Client::read with fast-path frames with and without payload before, between and after slow-path frames. Additionally 14 full real conversations over TLS (NLA on/off, with a reactivation, inputs and shutdown) are run with the transport delivering at most k bytes per read for k in {1,2,3,5,7,16,1000}, and 54 more in which the server cuts every message into TLS records of at most {1,2,3,4,5,7,11,16,100} plaintext bytes (a read of the decrypted stream returns at most the rest of one record) over a transport delivering everything / 1 / 7 bytes per read. Non-trivial: first frame has an empty payload, or declares a length below its own header, or at least one split point falls inside a frame header.".into()
     }
     fn assumptions(&self) -> Vec<String> {
         vec![
@@ -267,6 +279,22 @@ impl Prop for C13 {
                 Ok(t) => match crate::wire::check_c03(&t) {
                     Some(f) => Outcome::fail("mismatch", format!("conversation-fails-under-fragmented-delivery: {}", f.sig), format!("read cap {}: {}", cap, f.detail)),
                     None => Outcome::pass("conversation-under-fragmentation", true),
+                },
+            };
+        }
+        if let FrameSpec::ConversationRecords(nla, tcap) = c.frames[0] {
+            let rcap = match c.plan {
+                Plan::Cap(k) => k,
+                _ => 1,
+            };
+            let cfg = crate::tls::ConnCfg { use_nla: nla, ..Default::default() };
+            let p = crate::peer::ServerParams { selected: if nla { 2 } else { 1 }, reactivations: 1, tls_record_cap: rcap, ..Default::default() };
+            let rp = if tcap == 0 { ReadPlan::All } else { ReadPlan::Cap(tcap) };
+            return match crate::wire::converse_fragmented(&cfg, &p, crate::tls::Cert::A, true, rp, crate::memlink::WritePlan::All) {
+                Err(e) => Outcome::fail("setup", "machinery", e),
+                Ok(t) => match crate::wire::check_c03(&t) {
+                    Some(f) => Outcome::fail("mismatch", format!("conversation-fails-when-tls-records-split-frames: {}", f.sig), format!("TLS records of at most {} bytes, transport cap {}: {}", rcap, tcap, f.detail)),
+                    None => Outcome::pass("conversation-with-split-tls-records", true),
                 },
             };
         }
